@@ -1402,6 +1402,23 @@ func GenC06(rng *rand.Rand, thorough bool, emit func(*Sx)) {
 			emit(RunConv(f.caseOf("C06", segStream(rng, f.out, f.cuts, 0, rawEOF))))
 		}
 	}
+	// SIZE given more than once, the value that counts (the last one) above the limit: refused like a single one
+	for _, N := range []int{50, 1000} {
+		for _, tail := range []string{
+			fmt.Sprintf("SIZE=%d SIZE=%d", N, N+1), fmt.Sprintf("SIZE=1 BODY=8BITMIME SIZE=%d", N+1), fmt.Sprintf("size=%d SIZE=%d", N-1, 10*N),
+			fmt.Sprintf("SIZE=%d size=%d", N, N+1), fmt.Sprintf("SIZE=0 SIZE=0 SIZE=%d", N+1), fmt.Sprintf("SIZE=%d SIZE=99999999999999999999999", N)} {
+			for _, lmtp := range []bool{false, true} {
+				cfg := DefaultCfg()
+				cfg.MaxBytes, cfg.LMTP = int64(N), lmtp
+				f := newF(cfg)
+				f.hello()
+				f.cmd("MAIL FROM:<sized@ok> "+tail, 552)
+				f.add(L(A("must-not-mail"), XS("sized@ok")))
+				f.cmd("QUIT", 221)
+				emit(RunConv(f.caseOf("C06", segStream(rng, f.out, f.cuts, 0, rawEOF))))
+			}
+		}
+	}
 	// no limit: large SIZE values are accepted
 	for _, v := range []string{"0", "4294967296", "9223372036854775807"} {
 		f := newF(DefaultCfg())
